@@ -32,7 +32,9 @@ func CreateUnknownBox(name string, size uint64, payload []byte) *UnknownBox {
 
 // DecodeUnknownSR - decode an unknown box
 func DecodeUnknownSR(hdr BoxHeader, startPos uint64, sr bits.SliceReader) (Box, error) {
-	return &UnknownBox{hdr.Name, hdr.Size, sr.ReadBytes(hdr.payloadLen())}, sr.AccError()
+	// The size is for a box with a normal (8-byte) header, since that is what is written at encoding
+	size := uint64(boxHeaderSize + hdr.payloadLen())
+	return &UnknownBox{hdr.Name, size, sr.ReadBytes(hdr.payloadLen())}, sr.AccError()
 }
 
 // Type - return box type
